@@ -13,7 +13,6 @@ import (
 	"fmt"
 	"io"
 	"net"
-	"os"
 	"sort"
 	"strings"
 	"sync"
@@ -190,9 +189,6 @@ func (w *world) logf(format string, a ...any) {
 func (w *world) bad(sig, format string, a ...any) {
 	msg := fmt.Sprintf(format, a...)
 	w.logf("!! %s: %s", sig, msg)
-	if sig == "audit:tag-reservation-stale" && os.Getenv("C11_MUTE_TAGSTALE") == "1" { // DEV ONLY
-		return
-	}
 	w.mu.Lock()
 	if len(w.problems) < 20 {
 		w.problems = append(w.problems, problem{Sig: sig + "/after=" + w.lastOp, Msg: msg})
